@@ -513,9 +513,11 @@ class SciPyOptimizer(Optimizer):
             and self._config.variables.types is not None
             and "integrality" not in options
         ):
-            options["integrality"] = (
-                self._config.variables.types == VariableType.INTEGER
-            )
+            integrality = self._config.variables.types == VariableType.INTEGER
+            if self._config.variables.mask is not None:
+                # Only the free variables are passed to the optimizer:
+                integrality = integrality[self._config.variables.mask]
+            options["integrality"] = integrality
 
         return options
 
